@@ -206,8 +206,12 @@ class MyPyAstVisitor:
                 superclass_qname = superclass.fullname
                 superclass_name = superclass_qname.split(".")[-1]
 
-                # Check if the superclass name is an alias and find the real name
-                if superclass_name in self.aliases:
+                # Check if the superclass name is an alias and find the real name. A base class that is defined in this
+                # very module needs no lookup (and must not be confused with a class of the same name elsewhere)
+                defined_here = isinstance(getattr(superclass, "node", None), mp_nodes.TypeInfo) and superclass_qname == (
+                    f"{node.fullname.rsplit('.', 1)[0]}.{superclass_name}"
+                )
+                if superclass_name in self.aliases and not defined_here:
                     _, superclass_alias_qname = self._find_alias(superclass_name)
                     superclass_qname = superclass_alias_qname if superclass_alias_qname else superclass_qname
 
